@@ -238,6 +238,71 @@ def _merged_ok(it, final, generated, new):
 
 R.spec_funcs["merged_ok"] = _merged_ok
 
+
+# ------------------------------------------------------------------------------------------------- OpenApiLink.extract_parameters / extract_body: each named datum = its expression's value
+LK = "schemathesis.specs.openapi.stateful.links:"
+SM_ = "schemathesis.generation.stateful.state_machine:"
+# evaluation may fail (malformed pointer, missing header ...): the failure is recorded for THAT parameter, the others are still extracted
+R.contracts[EXP + "evaluate"].raises = ["ValueError"]
+for _k in (EXP + "_evaluate_nested#list", EXP + "_evaluate_nested#dict"):
+    R.contracts[_k].raises = list(R.contracts[_k].raises) + ["ValueError"]  # (an evaluation error inside a nested expression propagates to the caller)
+R.contracts[EXP + "evaluate"].effects = {"evaluated": "ghost('evaluated') + [(expr, evaluate_nested, raised is None, result if raised is None else None)]"}
+NParam = lambda c, n: Obj(LK + "NormalizedParameter", location=NoneT, name=Const(n), expression=Opq("Expr"), container_name=Const(c))
+
+
+class _LinkParams(D):
+    """Up to 3 link parameters with distinct (container, name) pairs: query.a, query.b, path_parameters.id - any sub-list."""
+
+    def make(self, it, name, idx=()):
+        out = [NParam(c, n).make(it, f"{name}.{c}.{n}") for c, n in (("query", "a"), ("path_parameters", "id"), ("query", "b")) if it.path.choose([(False, True), (True, True)], f"has:{c}.{n}")]
+        it.path.bounded_inputs.add("links with up to 3 parameters (two in one container, one in another)")
+        return out
+
+
+def _outcome(it, params_or_expr, nested):
+    """(ok?, value) recorded for the evaluation of this expression."""
+    for e, n, ok, v in it.ghost["evaluated"]:
+        if e is params_or_expr:
+            return ok, v
+    return None, None
+
+
+R.spec_funcs["evaluated_ok"] = lambda it, e: _outcome(it, e, None)[0]
+R.spec_funcs["evaluated_value"] = lambda it, e: _outcome(it, e, None)[1]
+R.spec_funcs["evaluated_nested_flag"] = lambda it, e: [n for x, n, ok, v in it.ghost["evaluated"] if x is e]
+R.contract(
+    LK + "OpenApiLink.extract_parameters",
+    prop="C10",
+    args={"self": Obj(LK + "OpenApiLink", parameters=_LinkParams()), "output": Opq("Out")},
+    ghost={"evaluated": []},
+    raises=[],
+    ensures={
+        # "the derived request's parameters ... named by the link equal the values obtained by evaluating the link's runtime expressions"
+        "every_link_parameter_is_extracted_into_its_container": "all(p.container_name in result and p.name in result[p.container_name] and result[p.container_name][p.name].definition is p.expression "
+                                                                "for p in self.parameters)",
+        "its_value_is_what_its_own_expression_evaluates_to": "all((is_instance(result[p.container_name][p.name].value, 'Ok') and result[p.container_name][p.name].value.ok() is evaluated_value(p.expression)) "
+                                                             "if evaluated_ok(p.expression) else is_instance(result[p.container_name][p.name].value, 'Err') for p in self.parameters)",
+        "each_expression_evaluated_once_as_a_plain_expression": "length(ghost('evaluated')) == length(self.parameters) and all(evaluated_nested_flag(p.expression) == [False] for p in self.parameters)",
+        "nothing_else_is_extracted": "sum(length(result[c]) for c in result) == length(self.parameters)",
+    },
+    replayable=False,
+)
+R.contract(
+    LK + "OpenApiLink.extract_body",
+    prop="C10",
+    args={"self": Obj(LK + "OpenApiLink", body=OneOf(Opq("Expr"), Global("schemathesis.core:NOT_SET"))), "output": Opq("Out")},
+    ghost={"evaluated": []},
+    raises=[],
+    ensures={
+        "no_request_body_in_the_link_means_none": "iff(result is None, self.body is NOT_SET_())",
+        # requestBody literals / expressions / nested objects: evaluated as a NESTED expression
+        "body_is_what_the_link_body_evaluates_to_nested": "implies(self.body is not NOT_SET_(), result.definition is self.body and evaluated_nested_flag(self.body) == [True] and "
+                                                          "((is_instance(result.value, 'Ok') and result.value.ok() is evaluated_value(self.body)) if evaluated_ok(self.body) else is_instance(result.value, 'Err')))",
+    },
+    replayable=False,
+)
+R.spec_funcs["NOT_SET_"] = lambda it: Global("schemathesis.core:NOT_SET").make(it, "NOT_SET")
+
 LEVEL_TEXT = ("Deductive: structural recursion of evaluate/_evaluate_nested against a denotation (lists of any length by invariant, dicts up to 2 entries), node evaluation, "
               "status matching; the expression lexer/parser and JSON-pointer resolution are covered by exhaustive bounded stand-ins. Level other.")
 LEVEL_NOTE = "Trusted: lexer/parser/resolve_pointer (stand-ins), requests URL preparation, expand_status_code (C04), pyvc semantics (E9)."
